@@ -36,7 +36,7 @@ pub fn cases() -> Vec<CorpusCase> {
                     3 => (5000, Ent::Mid6, Hint::Detect),
                     _ => (4096, Ent::Zero, Hint::Yes),
                 };
-                items.push(Item { len, ent, hint, src: Src::Mem, dup_of: None });
+                items.push(Item { len, ent, hint, src: Src::Mem, dup_of: None, cat_of: None });
             }
             let n_items = items.len();
             let content = ContentCase { seed: rng.next(), comp, cached: false, items };
@@ -76,9 +76,9 @@ pub fn cases() -> Vec<CorpusCase> {
             if shape == 3 {
                 indexes.push(IndexDef { name: "empty".into(), store: 0, offset: n_items as u32, count: 0 });
             }
-            let dir = DirCase { seed: rng.next(), vstores: vec![indexed, !indexed], stores: vec![files, misc], indexes };
+            let dir = DirCase { seed: rng.next(), vstores: vec![indexed, !indexed], stores: vec![files, misc], indexes, defer: 0 };
             let extra = if shape == 1 && pkg != Pkg::OneFile {
-                vec![ContentCase { seed: rng.next(), comp: Comp::None, cached: false, items: vec![Item { len: 77, ent: Ent::High, hint: Hint::No, src: Src::Mem, dup_of: None }, Item { len: 900, ent: Ent::Low4, hint: Hint::Yes, src: Src::Mem, dup_of: None }] }]
+                vec![ContentCase { seed: rng.next(), comp: Comp::None, cached: false, items: vec![Item { len: 77, ent: Ent::High, hint: Hint::No, src: Src::Mem, dup_of: None, cat_of: None }, Item { len: 900, ent: Ent::Low4, hint: Hint::Yes, src: Src::Mem, dup_of: None, cat_of: None }] }]
             } else {
                 vec![]
             };
